@@ -220,6 +220,15 @@ class Replayer:
                     S["audit_fail"] += 1
                     self.bad("audit:" + re.sub(r"[^a-z]+", "-", line[11:].strip().lower()), ln, line.strip())
                 # "C", "AUDIT OK", "D"... lines carry nothing the replay needs
+        if cur_objs is not None:
+            # the trace stops inside a collection (crash or endless loop in the sweep): the objects the sweep was
+            # about to walk over are still compared with the allocation history
+            for h in range(min(len(cur_objs), len(self.heaps))):
+                hist = self.live[h]
+                diff = [(o, hist.get(o), s) for (o, s, m) in cur_objs[h] if hist.get(o) != s][:3]
+                if diff:
+                    self.bad("heap-walk:objects-differ-from-allocation-history", self.gc_ln,
+                             "last (unfinished) collection, heap %d: (offset, allocated size, size the sweep sees): %s" % (h, diff))
         if pend is not None and self.loadreq is None:      # a collection at the very end (no allocation followed): still check it
             req.write("gc %s\n" % pend["marks"])
             exp.write("%d %s\n" % (pend["ln"], pend["expR"]))
